@@ -77,6 +77,8 @@ def case(c, is_mutant, skip_tests=False, skip_build=False):
                     return c["id"], "UNNAMED", f"fired {fired} but no report mentions {c['mention']!r}"
             return c["id"], "CAUGHT", f"by {fired}"
         else:
+            if rc != 0 and not fired and not errors:
+                errors = ["checker exited with %d: %s" % (rc, out[-300:].replace("\n", " | "))]  # a crash is not silence
             if fired or errors:
                 detail = [l for l in out.splitlines() if l.startswith("  ") and ": " in l and "rule " not in l][:3]
                 return c["id"], "FALSE-ALARM", f"fired {fired} {errors[:1]} " + " | ".join(detail)[:500]
